@@ -8,7 +8,8 @@
      atext  canonical text of every atom
    target = [kind "ctor"|"expr"|"out", cls, rate, expr, nfixed, audio, margs]
    Verdict clauses: law (tree = Expand with the measured single-channel results substituted),
-   count (units created = sum over the combinations), direct (constructors that delegate directly:
+   count (units created = sum over the combinations), op_direct (binary operators: a combination with a unit
+   is the operator unit on (x, y) in operand order), direct (constructors that delegate directly:
    every combination is exactly one unit cls.rate(inputs in _multi_new order)), out_flat / silence. *)
 EXTENDS Naturals, Integers, Sequences, FiniteSets, TLC, Json, IOUtils
 Templates == {} MaxArgs == 0 FirstList == FALSE
@@ -50,6 +51,17 @@ Agree(t, res, exp, tab) ==
                         /\ \A i \in 1..Len(exp.v) : Agree(t, res.v[i], exp.v[i], tab)
     ELSE NumbersOnly(t, exp.c) \/ res = Lookup(tab, exp.c).r
 
+\* binary operators: a combination with a unit in it is graph building - it must be exactly the operator unit
+\* on (x, y) in the order the operator takes its operands (opcode and operand order measured on two units);
+\* numbers 0, 1, False, True are left out (constructor shortcuts), tuples are not operands
+RateOfKind(k) == IF k = "ua" THEN "audio" ELSE IF k = "uk" THEN "control" ELSE "scalar"
+MaxRate(r1, r2) == IF "audio" \in {r1, r2} THEN "audio" ELSE IF "control" \in {r1, r2} THEN "control" ELSE "scalar"
+OpJudged(t, c) == /\ Len(c) = 2 /\ \A j \in 1..2 : t.kinds[c[j]] \in {"n", "ua", "uk"}
+                  /\ \E j \in 1..2 : t.kinds[c[j]] \in {"ua", "uk"}
+OpText(t, c, atext) ==
+    "BinaryOpUGen." \o MaxRate(RateOfKind(t.kinds[c[1]]), RateOfKind(t.kinds[c[2]])) \o "#" \o ToString(t.target.special)
+    \o "(" \o atext[c[t.target.order[1]]] \o "," \o atext[c[t.target.order[2]]] \o ")"
+
 GenericWhy(t, e) ==
     LET exp == Expand(t.args) IN
     IF ~HasAll(e.tab, exp) THEN "missing_single_calls"
@@ -63,6 +75,10 @@ GenericWhy(t, e) ==
                  /\ \E i \in 1..Len(cs) : \/ Lookup(e.tab, cs[i].c).n # 1
                                           \/ Lookup(e.tab, cs[i].c).r # Val(LeafText(t.target, cs[i].c, e.atext))
               THEN "direct"
+         ELSE IF t.target.kind = "expr" /\ t.target.special >= 0 /\ Len(t.args) = 2
+                 /\ \E i \in 1..Len(cs) : OpJudged(t, cs[i].c)
+                                          /\ Lookup(e.tab, cs[i].c).r # Val(OpText(t, cs[i].c, e.atext))
+              THEN "op_direct"
          ELSE "ok"
 
 \* convenience methods of ChannelList: one level of the law, the element calls are measured
